@@ -36,5 +36,19 @@ pos("set-always-takes-operand-prec","decimal.go","		if z.prec == 0 {\n			z.prec 
 pos("setbits64-zero-branch-before-prologue","decimal.go","func (z *Decimal) setBits64(neg bool, x uint64, exp int64) *Decimal {\n	if z.prec == 0 {\n		z.prec = DefaultDecimalPrec\n	}\n	z.acc = Exact\n	z.neg = neg\n	if x == 0 {\n		z.form = zero\n		return z\n	}","func (z *Decimal) setBits64(neg bool, x uint64, exp int64) *Decimal {\n	z.acc = Exact\n	z.neg = neg\n	if x == 0 {\n		z.form = zero\n		return z\n	}\n	if z.prec == 0 {\n		z.prec = DefaultDecimalPrec\n	}","FX-STICKY(d)","setBits64",note="a zero argument would leave precision 0")
 neg("neg-sticky-neg-rewrite","decimal.go","func (z *Decimal) Neg(x *Decimal) *Decimal {\n	z.Set(x)\n	z.neg = !z.neg","func (z *Decimal) Neg(x *Decimal) *Decimal {\n	xneg := x.neg\n	z.Set(x)\n	z.neg = !xneg",["FX-STICKY","PREC0","FX-IMMUT","FX-OWN"],quick=True)
 neg("neg-sticky-fma-scratch-mode","decimal.go","		z0.mode = z.mode\n","",["FX-STICKY","PREC0"],quick=True)
+
+# --- FX-RBW / FX-ACC / FX-RAW
+pos("revert-F5-setfloat-rbw","decimal.go","	z.neg = x.Signbit()\n	if x.IsInf() {","	z.neg = x.Signbit()\n	if z.IsInf() {","FX-RBW","(*Decimal).SetFloat",quick=True,note="F5")
+pos("setinf-reads-old-sign","decimal.go","	z.acc = Exact\n	z.form = inf\n	z.neg = signbit\n	return z","	z.acc = Exact\n	z.form = inf\n	z.neg = signbit != z.neg\n	return z","FX-RBW","(*Decimal).SetInf")
+pos("setbits64-reads-old-form","decimal.go","	if x == 0 {\n		z.form = zero\n		return z\n	}\n	// x != 0\n	z.form = finite\n	z.mant = z.mant.setUint64(x)","	if x == 0 && z.form != inf {\n		z.form = zero\n		return z\n	}\n	// x != 0\n	z.form = finite\n	z.mant = z.mant.setUint64(x)","FX-RBW","setBits64")
+pos("uquo-reuses-old-mantissa-length","decimal.go","	n := int(z.prec/_DW) + 1\n","	n := int(z.prec/_DW) + 1 + len(z.mant)&1\n","FX-RBW","(*Decimal).Quo",note="result would depend on the length of the receiver's stale mantissa")
+pos("revert-F3-fma-raw","decimal.go","if z == u || alias(z.mant, u.mant) {","if alias(z.mant, u.mant) {","FX-RAW","(*Decimal).FMA/(z,u)",quick=True,note="F3")
+pos("add-yneg-dropped-raw","decimal.go","		z.neg = x.neg\n		if x.neg == yneg {\n			// x + y == x + y","		z.neg = x.neg\n		_ = yneg\n		if x.neg == y.neg {\n			// x + y == x + y","FX-RAW","(*Decimal).Add/(z,y)")
+pos("uquo-d-after-division","decimal.go","	d := len(xadj) - len(y.mant)\n\n	// divide\n	var r dec\n	z.mant, r = z.mant.div(nil, xadj, y.mant)\n","	// divide\n	var r dec\n	z.mant, r = z.mant.div(nil, xadj, y.mant)\n	d := len(xadj) - len(y.mant)\n","FX-RAW","(*Decimal).uquo/(z,y)",note="the hazard the source comment warns about")
+pos("umul-exp-after-product","decimal.go","	e := int64(x.exp) + int64(y.exp)\n	if x == y {\n		z.mant = z.mant.sqr(x.mant)\n	} else {\n		z.mant = z.mant.mul(x.mant, y.mant)\n	}\n	z.setExpAndRound(e-dnorm(z.mant), 0)","	if x == y {\n		z.mant = z.mant.sqr(x.mant)\n	} else {\n		z.mant = z.mant.mul(x.mant, y.mant)\n	}\n	z.form = finite\n	z.exp = 0\n	e := int64(x.exp) + int64(y.exp)\n	z.setExpAndRound(e-dnorm(z.mant), 0)","FX-RAW","(*Decimal).umul")
+pos("set-no-acc-fxacc","decimal.go","	z.acc = Exact\n	if z != x {\n		z.form = x.form","	if z != x {\n		z.acc = Exact\n		z.form = x.form","FX-ACC","(*Decimal).Set",quick=True,note="z.Set(z) would keep a stale accuracy")
+pos("usub-cancel-no-acc-fxacc","decimal.go","	if len(z.mant) == 0 {\n		z.acc = Exact\n		z.form = zero\n		z.neg = false\n		return\n	}","	if len(z.mant) == 0 {\n		z.form = zero\n		z.neg = false\n		return\n	}","FX-ACC","(*Decimal).Add")
+pos("setexp-underflow-no-acc","decimal.go","		// underflow\n		z.acc = makeAcc(z.neg)\n		z.form = zero\n		return","		// underflow\n		z.form = zero\n		return","FX-ACC","(*Decimal).Mul")
+neg("neg-raw-neg-rewrite","decimal.go","func (z *Decimal) Neg(x *Decimal) *Decimal {\n	z.Set(x)\n	z.neg = !z.neg","func (z *Decimal) Neg(x *Decimal) *Decimal {\n	z.Set(x)\n	z.neg = !x.neg",["FX-RAW","FX-RBW","FX-ACC"],quick=True,note="Set writes z.neg only when z != x, so reading x.neg afterwards is safe: behaviour-preserving")
 json.dump(C,open("fx.json","w"),indent=1,ensure_ascii=False)
 print(len(C),"controls")
